@@ -196,7 +196,9 @@ def run_case(case) -> Result:
                 rows += op["rows"]
             elif op["op"] == "calculate":
                 hx.calculate()
-            elif a in alive:
+            else:  # also when the target has been removed already: a name that is no longer registered is nobody's
+                if a not in alive:
+                    labels.append("op_on_removed_name")
                 if op["op"] == "purge":
                     hx.purge(names[a])
                 elif op["op"] == "recalculate":
@@ -233,6 +235,28 @@ def _enumerated():
             }
 
 
+def _enumerated_templates():
+    """every name-related template pair, in both registration orders, each member in turn as the target of a few fixed
+    maintenance programs that go on appending afterwards (a helper series lost by the other member shows in ITS later
+    readings)"""
+    base = twin.fixed_streams(14)[4]
+    longer = twin.fixed_streams(14)[2]
+    programs = (
+        [{"op": "purge"}, {"op": "append", "rows": None, "k": (10, 12)}, {"op": "append", "rows": None, "k": (12, 14)}],
+        [{"op": "recalculate"}, {"op": "append", "rows": None, "k": (10, 13)}, {"op": "append", "rows": None, "k": (13, 14)}],
+        [{"op": "append", "rows": None, "k": (10, 11)}, {"op": "remove"}, {"op": "append", "rows": None, "k": (11, 14)}],
+        [{"op": "purge"}, {"op": "calculate"}, {"op": "append", "rows": None, "k": (10, 14)}],
+    )
+    for pair in TEMPLATES:
+        for order in (0, 1):
+            members = [dict(cls=m["cls"], kw=dict(m["kw"])) if "cls" in m else dict(analysis=m["analysis"], kw=dict(m["kw"])) for m in (pair if order == 0 else pair[::-1])]
+            for target in (0, 1):
+                for stream in (base, longer):
+                    for prog in programs:
+                        ops = [dict(op=o["op"], rows=stream[o["k"][0] : o["k"][1]]) if o["op"] == "append" else {"op": o["op"]} for o in prog]
+                        yield {"members": [dict(m) for m in members], "late": [], "target": target, "tf": None, "preload": stream[:10], "ops": ops}
+
+
 def _enum_slice(k, parts):
     def gen():
         for i, c in enumerate(_enumerated()):
@@ -246,4 +270,5 @@ def shards(tier):
     n = 250 if tier == "quick" else 20000
     out = [Shard(f"gen-{i}", lambda: cases(), n, subject="interference") for i in range(12)]
     out += [Shard(f"enum-pairs-{k}", cases=_enum_slice(k, 4), subject="interference", exhaustive=True, cost=2) for k in range(4)]
+    out.append(Shard("enum-templates", cases=_enumerated_templates, subject="interference", exhaustive=True, cost=2))
     return out
